@@ -6,7 +6,8 @@ using namespace vf;
 
 struct Tissue { const char* name; };
 static const char* TISSUES[] = {"one growing cell (remeshing)", "two adhering epithelial cells", "epithelial cell overlapping an ECM cell", "nucleus inside an epithelial cell", "lumen cell next to an epithelial cell, both growing"};
-static const double TR[6][3] = {{0.25, 0, 0}, {1.125, -1.125, 0}, {8, -8, 8}, {1024, 1024, 1024}, {-5, -2.5, -1.5}, {-1024, 2048, 0.5}};
+static const int NTR = 7;
+static const double TR[NTR][3] = {{0.25, 0, 0}, {1.125, -1.125, 0}, {8, -8, 8}, {1024, 1024, 1024}, {-5, -2.5, -1.5}, {-1024, 2048, 0.5}, {131072, -65536, 32768}};
 static const double ORIGIN[3] = {2.5, 1.25, 0.75};
 
 static std::vector<sw::CellSpec> make_tissue(int t, const double tr[3], double eps_node0) {
@@ -20,15 +21,16 @@ static std::vector<sw::CellSpec> make_tissue(int t, const double tr[3], double e
         case 3: { cs.push_back({translated(ico, ox, oy, oz), epi(5)}); auto nuc = make_cell_type(3, 1); nuc->bulk_modulus_ = 20; nuc->face_types_[0].surface_tension_ = 0.5; nuc->face_types_[0].repulsion_strength_ = 50; cs.push_back({translated(scaled(ico, 0.5, 0.5, 0.5), ox + 0.5, oy, oz), nuc}); break; }
         default: { cs.push_back({translated(ico, ox, oy, oz), epi(10)}); auto lum = make_cell_type(2, 1); lum->bulk_modulus_ = 20; lum->avg_growth_rate_ = 10; lum->face_types_[0].surface_tension_ = 0.5; lum->face_types_[0].repulsion_strength_ = 50; cs.push_back({translated(scaled(ico, 0.75, 0.75, 0.75), ox - 1.6875, oy + 0.125, oz), lum}); }
     }
-    if (eps_node0 != 0) cs[0].mesh.pos[0] = std::nextafter(cs[0].mesh.pos[0], 1e300);
+    if (eps_node0 == 1) cs[0].mesh.pos[0] = std::nextafter(cs[0].mesh.pos[0], 1e300);
+    if (eps_node0 == 2) for (auto& c : cs) for (size_t i = 0; i < c.mesh.pos.size(); i++) c.mesh.pos[i] = std::nextafter(c.mesh.pos[i], (i % 2) ? 1e300 : -1e300);   // every coordinate moved by one ulp, alternating directions: what a translation does to the roundings
     return cs;
 }
 
 struct Final { std::vector<std::vector<std::array<double, 3>>> pos; std::vector<std::vector<std::array<unsigned, 3>>> tri; std::vector<double> vol, pres; std::vector<unsigned> ids; bool threw = false; std::string what; };
 
-static Final run(int tissue, const double tr[3], int N, bool perturb) {
+static Final run(int tissue, const double tr[3], int N, int perturb) {
     Final F; global_simulation_parameters p = sc::make_sim_params(sw::scratch_root() + "/c14", 0.2); p.time_step_ = 2e-3; p.damping_coefficient_ = 2.0; p.sampling_period_ = 1e9; p.simulation_duration_ = 1e9; p.contact_cutoff_adhesion_ = 0.1; p.contact_cutoff_repulsion_ = 0.1;
-    try { sw::World W(make_tissue(tissue, tr, perturb ? 1 : 0), p); for (int i = 0; i < N; i++) W.s->run_iteration();
+    try { sw::World W(make_tissue(tissue, tr, perturb), p); for (int i = 0; i < N; i++) W.s->run_iteration();
         for (auto& c : W.cells()) { F.ids.push_back(c->get_id()); F.vol.push_back(c->get_volume()); F.pres.push_back(c->get_pressure()); F.pos.emplace_back(); F.tri.emplace_back();
             for (const node& n : c->node_lst_) F.pos.back().push_back(n.is_used_ ? std::array<double, 3>{n.pos_.dx() - tr[0], n.pos_.dy() - tr[1], n.pos_.dz() - tr[2]} : std::array<double, 3>{0, 0, 0});
             for (const face& f : c->face_lst_) if (f.is_used_) F.tri.back().push_back({f.n1_id_, f.n2_id_, f.n3_id_}); } }
@@ -41,13 +43,13 @@ static double max_dev(const Final& a, const Final& b) { double d = 0; for (size_
 struct Out { std::string err; bool inconclusive = false; double dev = 0, sens = 0; long nodes = 0; };
 static Out check(int tissue, int tri, int N) {
     Out o; const double zero[3] = {0, 0, 0}; char buf[400];
-    Final ref = run(tissue, zero, N, false), ref2 = run(tissue, zero, N, false);
+    Final ref = run(tissue, zero, N, 0), ref2 = run(tissue, zero, N, 0);
     if (!same_structure(ref, ref2) || max_dev(ref, ref2) != 0) { o.err = "INTERNAL the reference run is not reproducible"; return o; }
-    Final per = run(tissue, zero, N, true), tra = run(tissue, TR[tri], N, false);
+    Final per = run(tissue, zero, N, 1), per2 = run(tissue, zero, N, 2), tra = run(tissue, TR[tri], N, 0);
     if (ref.threw) { o.inconclusive = true; return o; }
     for (auto& v : ref.pos) o.nodes += (long)v.size();
-    if (!same_structure(ref, per)) { o.inconclusive = true; return o; }         // a 1-ulp change already alters the remeshing decisions: chaotic regime, not judged
-    o.sens = max_dev(ref, per);
+    if (!same_structure(ref, per) || !same_structure(ref, per2)) { o.inconclusive = true; return o; }         // a 1-ulp change already alters the remeshing decisions: chaotic regime, not judged
+    o.sens = std::max(max_dev(ref, per), max_dev(ref, per2));
     if (tra.threw) { o.err = "translated-run-failed-where-the-reference-run-succeeded: " + tra.what; return o; }
     if (tra.ids != ref.ids) { snprintf(buf, sizeof buf, "cell-count-or-ids-differ-after-translation: %zu vs %zu cells", tra.ids.size(), ref.ids.size()); o.err = buf; return o; }
     if (!same_structure(ref, tra)) { o.err = "mesh-connectivity-differs-after-translation"; return o; }
@@ -61,23 +63,60 @@ static Out check(int tissue, int tri, int N) {
     return o;
 }
 
+// ---- a cell that grows and divides.  The interface triangulation of a division is a discrete algorithm whose outcome (which sample points are accepted, and even whether the
+// division succeeds at this attempt or at the next one, five iterations later) is decided by the last bits of the coordinates, so the trajectories after a division are not
+// comparable node by node: a translation legitimately re-rolls those decisions.  What does not depend on them, and is judged here:
+//   * the translated cell divides too, at most DIV_SLACK division attempts later (an attempt fails cleanly for 10-30 % of the roundings on the unchanged tree);
+//   * the cut goes through the same place of the cell: the volume fraction of the first daughter right after the division agrees within DIV_FRACTION_TOL.
+static const int DIV_HORIZON = 75, DIV_SLACK = 8; static const double DIV_FRACTION_TOL = 0.1;
+struct DivOut { int divided_at = -1; double fraction = 0; bool threw = false; std::string what; double pre_dev = 0; std::vector<std::array<double, 3>> pre; };
+static DivOut run_division(const double tr[3], int horizon) {
+    using namespace sc; DivOut o; global_simulation_parameters p = make_sim_params(sw::scratch_root() + "/c14", 0.2); p.time_step_ = 2e-3; p.damping_coefficient_ = 2.0; p.sampling_period_ = 1e9; p.simulation_duration_ = 1e9; p.contact_cutoff_adhesion_ = 0.1; p.contact_cutoff_repulsion_ = 0.1;
+    auto ty = make_cell_type(0, 3); ty->bulk_modulus_ = 20; ty->avg_growth_rate_ = 30; for (auto& f : ty->face_types_) { f.surface_tension_ = 0.5; f.adherence_strength_ = 5; f.repulsion_strength_ = 50; f.bending_modulus_ = 0.01; } ty->area_elasticity_modulus_ = 0.2;
+    Mesh m = translated(scaled(transformed(icosphere(2), matmul(rot_x_51213(), rot_z_345()), {0, 0, 0}), 1.3, 1.0, 0.8), ORIGIN[0] + tr[0], ORIGIN[1] + tr[1], ORIGIN[2] + tr[2]);
+    try { { cell_ptr probe = make_cell(m, 0, ty, true); ty->avg_division_vol_ = 1.004 * probe->get_volume(); ty->std_division_vol_ = 0; probe->clear_data(); }
+        sw::World W({{m, ty}}, p);
+        for (int i = 0; i < horizon; i++) { if (W.cells().size() == 1 && i % 5 == 0) { o.pre.clear(); for (const node& n : W.cells()[0]->node_lst_) if (n.is_used_) o.pre.push_back({n.pos_.dx() - tr[0], n.pos_.dy() - tr[1], n.pos_.dz() - tr[2]}); }
+            W.s->run_iteration(); if (getenv("C14_DEBUG")) printf("it %d cells %zu V %.5f target %.5f divV %.5f\n", i, W.cells().size(), W.cells()[0]->get_volume(), W.cells()[0]->get_target_volume(), W.cells()[0]->get_division_volume());
+            if (W.cells().size() >= 2) { o.divided_at = i; double v1 = W.cells()[0]->get_volume(), v2 = W.cells()[1]->get_volume(); if (W.cells()[0]->get_id() > W.cells()[1]->get_id()) std::swap(v1, v2); o.fraction = v1 / (v1 + v2); break; } } }
+    catch (std::exception& e) { o.threw = true; o.what = e.what(); }
+    return o;
+}
+static std::string check_division(int tri, std::string* note) {
+    const double zero[3] = {0, 0, 0}; char buf[400]; DivOut ref = run_division(zero, DIV_HORIZON);
+    if (ref.threw || ref.divided_at < 0 || ref.divided_at > DIV_HORIZON - 5 * DIV_SLACK - 5) { *note = "inconclusive: the reference cell does not divide early enough"; return ""; }
+    DivOut tra = run_division(TR[tri], DIV_HORIZON);
+    snprintf(buf, sizeof buf, "reference divides in iteration %d (first daughter gets %.4f of the volume), translated in iteration %d (%.4f)", ref.divided_at, ref.fraction, tra.divided_at, tra.fraction); *note = buf;
+    if (tra.threw) return "translated-run-failed-where-the-reference-run-succeeded: " + tra.what;
+    if (tra.divided_at < 0 || tra.divided_at > ref.divided_at + 5 * DIV_SLACK) { snprintf(buf, sizeof buf, "translated-cell-does-not-divide: the reference cell divides in iteration %d, the translated one not within %d further attempts", ref.divided_at, DIV_SLACK); return buf; }
+    if (tra.divided_at < ref.divided_at - 5 * DIV_SLACK) return "translated-cell-divides-much-earlier-than-the-reference";
+    if (std::fabs(tra.fraction - ref.fraction) > DIV_FRACTION_TOL) { snprintf(buf, sizeof buf, "division-plane-depends-on-placement: the first daughter receives %.4f of the volume in the reference run and %.4f in the translated run", ref.fraction, tra.fraction); return buf; }
+    return "";
+}
+
 static void explore(Result& R) {
     const bool th = R.args.thorough(); long cases = 0, inconcl = 0, iters = 0; double worst = 0;
     std::vector<int> Ns = th ? std::vector<int>{10, 50, 200} : std::vector<int>{10, 40};
-    for (int t = 0; t < 5; t++) for (int tr = 0; tr < 6; tr++) for (int N : Ns) { if (R.out_of_time(0.9)) { R.cap("deadline"); goto done; }
+    for (int t = 0; t < 5; t++) for (int tr = 0; tr < NTR; tr++) for (int N : Ns) { if (R.out_of_time(0.9)) { R.cap("deadline"); goto done; }
         progress("tissue=" + std::to_string(t) + "\ntr=" + std::to_string(tr) + "\nN=" + std::to_string(N) + "\n");
-        Out o = check(t, tr, N); cases++; iters += 5L * N;
+        Out o = check(t, tr, N); cases++; iters += 6L * N;
         if (o.err.rfind("INTERNAL", 0) == 0) { R.internal_error = o.err; return; }
         if (o.inconclusive) { inconcl++; R.tables["inconclusive_chaotic_or_failed_reference"][std::string(TISSUES[t]) + " N=" + std::to_string(N)]++; continue; }
         worst = std::max(worst, o.dev);
         if (!o.err.empty()) R.violation(clause_of(o.err) + "|tissue=" + std::to_string(t), std::string(TISSUES[t]) + ", translation (" + jnum(TR[tr][0]) + "," + jnum(TR[tr][1]) + "," + jnum(TR[tr][2]) + "), " + std::to_string(N) + " iterations: " + o.err, "tissue=" + std::to_string(t) + "\ntr=" + std::to_string(tr) + "\nN=" + std::to_string(N) + "\n");
         R.sample("{\"tissue\":\"" + std::string(TISSUES[t]) + "\",\"translation\":[" + jnum(TR[tr][0]) + "," + jnum(TR[tr][1]) + "," + jnum(TR[tr][2]) + "],\"iterations\":" + std::to_string(N) + ",\"max_deviation\":" + jnum(o.dev) + ",\"one_ulp_sensitivity\":" + jnum(o.sens) + "}", 8); }
 done:
+    { long div_cases = 0, div_judged = 0; for (int tr = 0; tr < NTR; tr++) { if (R.out_of_time(0.95)) { R.cap("deadline (division block)"); break; } progress("mode=division\ntr=" + std::to_string(tr) + "\n"); std::string note; std::string e = check_division(tr, &note); div_cases++; cases++; iters += 2L * DIV_HORIZON; if (note.rfind("inconclusive", 0) == 0) { inconcl++; continue; } div_judged++;
+        R.sample("{\"tissue\":\"one growing cell that divides\",\"translation\":[" + jnum(TR[tr][0]) + "," + jnum(TR[tr][1]) + "," + jnum(TR[tr][2]) + "],\"observed\":\"" + note + "\"}", 14);
+        if (!e.empty()) R.violation(clause_of(e) + "|division", "one growing, dividing cell, translation (" + jnum(TR[tr][0]) + "," + jnum(TR[tr][1]) + "," + jnum(TR[tr][2]) + "): " + e + " [" + note + "]", "mode=division\ntr=" + std::to_string(tr) + "\n"); }
+      R["division_cases"] = div_cases; R["division_cases_judged"] = div_judged; if (!div_judged && R.violations.empty() && R.exhaustive) R.internal_error = "no division case could be judged (vacuous)"; }
     sw::cleanup_scratch();
     R["evaluations"] = cases; R["states"] = cases; R["transitions"] = iters; R["distinct_nontrivial"] = cases - inconcl; R["traces_validated_against_impl"] = cases - inconcl; R["inconclusive_cases"] = inconcl; R.reals["worst_position_deviation"] = worst;
     if (cases - inconcl < 2 && R.exhaustive) R.internal_error = "almost every case was inconclusive (vacuous)";
-    R.strings["rule"] = "a case = (tissue, dyadic translation, number of iterations); four real solver runs per case: reference, reference again (reproducibility), reference with one input coordinate moved by 1 ulp (sensitivity yardstick), translated; the translated result minus the translation must agree with the reference in cell ids, connectivity, node positions, volumes and pressures; cases where the 1-ulp run already changes connectivity are counted as inconclusive";
-    R.assumptions = {"translations are dyadic so that translated inputs are exact; tolerance = 1e-9 + 16 * (sensitivity/ulp) * ulp(|t|) * iterations", "tissue placed at (2.5,1.25,0.75) so that the origin is not special; one translation moves it across the origin, one by about one voxel"};
+    R.strings["rule"] = "a case = (tissue, dyadic translation, number of iterations); five real solver runs per case: reference, reference again (reproducibility), reference with one input coordinate moved by 1 ulp and with every input coordinate moved by 1 ulp (sensitivity yardsticks), translated; the translated result minus the translation must agree with the reference in cell ids, connectivity, node positions, volumes and pressures; cases where the 1-ulp run already changes connectivity are counted as inconclusive";
+    R.assumptions = {"division block: trajectories after a division are not compared node by node (the interface triangulation re-rolls with the last bits of the coordinates, and an attempt fails cleanly for 10-30 % of them); judged: the translated cell divides within 8 further attempts and the first daughter receives the same fraction of the volume within 0.1", "translations are dyadic so that translated inputs are exact; tolerance = 1e-9 + 16 * (sensitivity/ulp) * ulp(|t|) * iterations", "tissue placed at (2.5,1.25,0.75) so that the origin is not special; one translation moves it across the origin, one by about one voxel"};
 }
-static int replay(const Replay& rp, Result& R) { Out o = check((int)rp.geti("tissue"), (int)rp.geti("tr"), (int)rp.geti("N")); sw::cleanup_scratch(); printf("deviation %.3g sensitivity %.3g inconclusive %d\n%s\n", o.dev, o.sens, (int)o.inconclusive, o.err.c_str()); if (!o.err.empty()) { R.violation(clause_of(o.err), o.err, ""); return 1; } return 0; }
+static int replay(const Replay& rp, Result& R) { if (rp.geti("diag", 0)) { const double zero[3] = {0, 0, 0}; for (int N = 1; N <= (int)rp.geti("N"); N++) { Final a = run((int)rp.geti("tissue"), zero, N, 0), b = run((int)rp.geti("tissue"), TR[rp.geti("tr")], N, 0); printf("N=%d cells %zu/%zu", N, a.ids.size(), b.ids.size()); for (size_t i = 0; i < a.tri.size() && i < b.tri.size(); i++) printf("  cell%zu tris %zu/%zu nodes %zu/%zu same_tris=%d", i, a.tri[i].size(), b.tri[i].size(), a.pos[i].size(), b.pos[i].size(), (int)(a.tri[i] == b.tri[i])); printf(" dev=%.3g\n", same_structure(a, b) ? max_dev(a, b) : -1.0); } return 0; }
+    if (rp.get("mode") == "division") { std::string note, e = check_division((int)rp.geti("tr"), &note), note2, e2 = check_division((int)rp.geti("tr"), &note2); sw::cleanup_scratch(); if (e != e2) { printf("replay diverged\n"); return 0; } printf("%s\n%s\n", note.c_str(), e.c_str()); if (!e.empty()) { R.violation(clause_of(e), e, ""); return 1; } return 0; }
+    Out o = check((int)rp.geti("tissue"), (int)rp.geti("tr"), (int)rp.geti("N")); sw::cleanup_scratch(); printf("deviation %.3g sensitivity %.3g inconclusive %d\n%s\n", o.dev, o.sens, (int)o.inconclusive, o.err.c_str()); if (!o.err.empty()) { R.violation(clause_of(o.err), o.err, ""); return 1; } return 0; }
 int main(int argc, char** argv) { return run_main(argc, argv, "C14", explore, replay); }
